@@ -190,7 +190,19 @@ pub fn apply_edit(t: &mut Tree, e: &Edit) {
             if let Some(p) = pick(&links, *idx) {
                 let n = t.0.get_mut(p).unwrap();
                 if let Kind::Link { target: old } = &mut n.kind {
-                    *old = if *old == *target { format!("{target}x") } else { target.clone() };
+                    // two special values spell the old target differently: other bytes that
+                    // name the same components (a trailing '/', a doubled '/', a '/.' )
+                    *old = match target.as_str() {
+                        "@RESPELL1@" if old.len() > 1 && old.ends_with('/') => old.trim_end_matches('/').to_string(),
+                        "@RESPELL1@" => format!("{old}/"),
+                        "@RESPELL2@" if old.contains('/') => old.replacen('/', "//", 1),
+                        "@RESPELL2@" => format!("{old}/."),
+                        _ if *old == *target => format!("{target}x"),
+                        _ => target.clone(),
+                    };
+                    if old.is_empty() {
+                        *old = ".".to_string();
+                    }
                 }
             }
         }
@@ -229,6 +241,7 @@ pub fn edit_strategy(cfg: TreeCfg) -> BoxedStrategy<Edit> {
             .prop_map(|(idx, uid, gid)| Edit::Chown { idx, uid, gid }),
         2 => (idx, 0u8..8, small_len).prop_map(|(idx, pool, len)| Edit::SwapKind { idx, pool, len }),
         1 => (idx, tree::link_target_strategy()).prop_map(|(idx, target)| Edit::Retarget { idx, target }),
+        1 => (idx, prop::sample::select(vec!["@RESPELL1@", "@RESPELL2@"])).prop_map(|(idx, t)| Edit::Retarget { idx, target: t.to_string() }),
     ]
     .boxed()
 }
